@@ -185,7 +185,7 @@ def _run_structural(ctx):
     # workers command
     wk = idx.func("gwf.plugins.workers:workers")
     opt_param = None
-    for d in wk.node.decorator_list:
+    for d in ctx.index.expanded_decorators(wk):
         if isinstance(d, ast.Call) and idx.canon(d.func, wk.module) == "click.option":
             names = [a.value for a in d.args if isinstance(a, ast.Constant) and isinstance(a.value, str)]
             if "--num-workers" in names:
